@@ -262,7 +262,7 @@ func run(c *harness.Ctx, i int) {
 	}
 	leg := []string{"next", "next", "file", "file", "file", "stream", "stream"}[rng.Intn(7)]
 	big := c.Tier == "thorough" && i%2000 == 1
-	if i%400 == 7 {
+	if i%700 == 7 {
 		leg = "cli"
 	}
 	n := 1 + rng.Intn(16)
@@ -290,12 +290,15 @@ func run(c *harness.Ctx, i int) {
 		// runs of one byte value: their window hash is a constant, and for the few avg values whose discriminator divides
 		// that constant plus one the run is a cut point at every position (cut every min+1 bytes instead of at max)
 		fill := []byte{0, 0, 0xff, byte(rng.Intn(256))}[rng.Intn(4)]
-		if avgs := oracle.AvgsCuttingConstRun(fill, 1<<20); len(avgs) > 0 {
-			avg := avgs[rng.Intn(len(avgs))]
-			sz = dsu.Sizes{Min: 48 + uint64(rng.Intn(int(min(avg, 2000)))), Avg: avg, Max: avg + uint64(rng.Intn(int(avg)+1))}
-			if sz.Min > sz.Avg {
-				sz.Min = sz.Avg
+		var avgs []uint64
+		for _, a := range oracle.AvgsCuttingConstRun(fill, 1<<20) {
+			if a >= 256 {
+				avgs = append(avgs, a)
 			}
+		}
+		if len(avgs) > 0 {
+			avg := avgs[rng.Intn(len(avgs))]
+			sz = dsu.Sizes{Min: 48 + uint64(rng.Intn(int(min(avg-48, 2000)))), Avg: avg, Max: avg + uint64(rng.Intn(int(avg)+1))}
 			head := make([]byte, rng.Intn(int(sz.Min)*2+1))
 			rng.Read(head)
 			run := make([]byte, int(sz.Max)*(1+rng.Intn(2))+rng.Intn(1000))
@@ -307,9 +310,7 @@ func run(c *harness.Ctx, i int) {
 			blob = append(append(head, run...), tail...)
 			size = len(blob)
 			class = fmt.Sprintf("const-run-at-cutting-avg/%02x", fill)
-			if leg != "file" {
-				leg = "next"
-			}
+			leg = []string{"next", "stream"}[rng.Intn(2)]
 			n = 1 + rng.Intn(4)
 		}
 	}
